@@ -329,9 +329,30 @@ func loopsOf(t *Target) []string {
 			if x.Post != nil {
 				fp += nodeStr(x.Post)
 			}
+			if x.Body != nil && len(x.Body.List) > 0 {
+				first := nodeStr(x.Body.List[0])
+				if len(first) > 80 {
+					first = first[:80]
+				}
+				fp += " | " + first
+			}
 			out = append(out, blankNames(fp, names))
 		case *ast.RangeStmt:
-			out = append(out, blankNames("range "+nodeStr(x.X), names))
+			fp := "range " + nodeStr(x.X) + " |"
+			if x.Key != nil {
+				fp += " key"
+			}
+			if x.Value != nil {
+				fp += " value"
+			}
+			if x.Body != nil && len(x.Body.List) > 0 {
+				first := nodeStr(x.Body.List[0])
+				if len(first) > 80 {
+					first = first[:80]
+				}
+				fp += " | " + first
+			}
+			out = append(out, blankNames(fp, names))
 		}
 		return true
 	})
